@@ -4,7 +4,7 @@
    The model (Pbf/Model.v) is a hand transcription of /repo/osmpbf/decode_data.go at
    message-tree level, tied to the implementation by correspondence (harness/cmd/c08). *)
 From Coq Require Import ZArith List Bool.
-From Verif Require Import Base.Int64 Pbf.Tree Pbf.Model Pbf.Spec Pbf.ProofsIndep Pbf.ProofsFilter Pbf.ProofsDecode Pbf.ProofsDense Pbf.ProofsAll Pbf.Arena Pbf.ProofsArena Pbf.ProofsFile C01.Compose.
+From Verif Require Import Base.Int64 Pbf.Tree Pbf.Model Pbf.Spec Pbf.CheckLib Pbf.ProofsIndep Pbf.ProofsFilter Pbf.ProofsDecode Pbf.ProofsDense Pbf.ProofsAll Pbf.Arena Pbf.ProofsArena Pbf.ProofsFile C01.Compose.
 Import ListNotations.
 Open Scope Z_scope.
 
@@ -27,6 +27,16 @@ Print Assumptions C08_filter_is_subsequence.
 Theorem C08_state_independent : forall c st1 st2 m, scan_result c st1 m = scan_result c st2 m.
 Proof. exact scan_result_state_independent. Qed.
 Print Assumptions C08_state_independent.
+
+(* 2a. ... and so, at file level, for ARBITRARY message trees (valid encodings or not), every
+       number of workers n (block k is decoded by worker k mod n, each worker threads its own decoder
+       state) and every configuration: if the unfiltered scan of the file succeeds with q, the
+       configured scan succeeds with exactly the kept subsequence of q.  Nothing is claimed when the
+       unfiltered scan fails (a skip flag can hide the error of a skipped element). *)
+Theorem C08_scan_file_filter : forall c n ms q,
+  scan_file cfg_all n ms = Ok q -> scan_file c n ms = Ok (filter (keeps c) q).
+Proof. exact scan_file_filter. Qed.
+Print Assumptions C08_scan_file_filter.
 
 (* 3. the reset applied to a rejected way/relation/node gives back the value of a fresh one
       (ways and relations are modelled BY VALUE, so this only restates the definition of the reset:
